@@ -60,6 +60,16 @@ func genC01(r *Rng, tier string) *Plan {
 			}
 		}
 	}
+	// a childless entity whose public key bits are overridden: key identifiers requested as hash
+	// follow the bits the certificate carries (for a self-signed one, AKI == SKI)
+	for _, e := range g.Ents {
+		if len(g.children(e)) == 0 && r.Chance(1, 10) {
+			e.Manip = &ManipSpec{PubKey: "!binary:" + b64(r.Bytes(r.Range(8, 70)))}
+			e.Exts = []ExtSpec{{Kind: "subjectKeyIdentifier", Content: rawJSON("hash")}, {Kind: "authorityKeyIdentifier", Content: rawJSON(map[string]any{"id": "hash"})}}
+			e.Profile = ""
+			g.P.Meta["pubkey-manipulated"] = "1"
+		}
+	}
 	strTypes := []string{"printable", "utf8", "utf8", "ia5", "teletex"}
 	foreign := func(e *EntitySpec, label string) {
 		fp := ForeignParams{Parts: "cert+key", Str: Pick(r, strTypes), KeyAlg: e.KeyAlg, Pub: r.Bool(), AltDN: r.Chance(1, 3),
@@ -265,7 +275,8 @@ func (o *c01Oracle) AfterRun(w *World, op *Op, res *RunResult) {
 		RequireAll:  true,
 		CheckKeyIDs: true,
 		Only:        func(e *EntitySpec, a *Artifact) bool { return a.Pem.HasHash || !a.Exists },
-		IgnoreSig:   func(e *EntitySpec) bool { return false },
+		// a self-signed certificate that carries other key bits than its key cannot verify under "its own key"
+		IgnoreSig: func(e *EntitySpec) bool { return e.Issuer == "" && e.Manip != nil && e.Manip.PubKey != "" },
 	})
 	for _, c := range probs {
 		w.Fail(c.Sig, "after run op %d (flags %d): %s", op.ID, op.Flags, c.Detail)
